@@ -869,6 +869,107 @@ End Answer.
 Lemma sub_points_nonempty : forall s, sub_points s <> [].
 Proof. intro s. unfold sub_points. destruct (is_def6 s); [|destruct (is_def4 s)]; discriminate. Qed.
 
+Lemma rearrange_rr_nonempty : forall sort r, rr_points r <> [] ->
+  rearrange_rr sort r = rbind (sweep [] (sort (rr_points r ++ implicit_points r))) (fun l => Ok (squash l)).
+Proof.
+  intros sort r H. unfold rearrange_rr. destruct (rr_points r); [contradiction|reflexivity].
+Qed.
+
+Section RearrangeWf.
+  Variable sort : list point -> list point.
+  Hypothesis Hsort : sort_spec sort.
+  Variable S : list subnet.
+  Hypothesis wfS : wf_subnets S.
+
+  Let r := add_locations S.
+  Let its := items_of S.
+  Let bot := bottom_of S.
+  Let L := sort (rr_points r ++ implicit_points r).
+
+  Lemma L_perm_items : Permutation L (flat_map ipoints its).
+  Proof.
+    destruct (Hsort (rr_points r ++ implicit_points r)) as [Lp _]. fold L in Lp.
+    apply Permutation_sym. unfold r in Lp. rewrite (points_are_item_points S (wfS_all S wfS)) in Lp. exact Lp.
+  Qed.
+
+  Lemma L_sorted_items : StronglySorted (fun a b => pless b a = false) L.
+  Proof. destruct (Hsort (rr_points r ++ implicit_points r)) as [_ Ls]. exact Ls. Qed.
+
+  Lemma Hrange : forall i, In i its -> i_s i < i_e i /\ i_e i <= two128.
+  Proof. intros i Hi. apply geo_range. apply (items_inum S wfS). auto. Qed.
+  Lemma Hlam : forall i j, In i its -> In j its ->
+    i_e i <= i_s j \/ i_e j <= i_s i \/ (i_s i <= i_s j /\ i_e j <= i_e i) \/ (i_s j <= i_s i /\ i_e i <= i_e j).
+  Proof. intros i j Hi Hj. apply geo_lam; apply (items_inum S wfS); auto. Qed.
+  Lemma Hstart : forall i j, In i its -> In j its -> i_s i = i_s j -> i_e j < i_e i -> imask i < imask j.
+  Proof. intros i j Hi Hj. apply geo_start; apply (items_inum S wfS); auto. Qed.
+  Lemma Hend : forall i j, In i its -> In j its -> i_e i = i_e j -> i_e i < two128 -> i_s i < i_s j -> imask i < imask j.
+  Proof. intros i j Hi Hj. apply geo_end; apply (items_inum S wfS); auto. Qed.
+  Lemma Hinj : forall i j, In i its -> In j its -> i_s i = i_s j -> i_e i = i_e j -> i = j.
+  Proof. intros i j Hi Hj. apply (items_inj S wfS); auto. Qed.
+  Lemma Hmono : forall i j, In i its -> In j its -> i_s i <= i_s j -> i_e j <= i_e i -> imask i <= imask j.
+  Proof.
+    intros i j Hi Hj. apply geo_mono; try (apply (items_inum S wfS); auto).
+    intros [A1 [A2 _]] [B1 [B2 _]]. assert (i = j) by (apply Hinj; auto; congruence). subst. reflexivity.
+  Qed.
+  Lemma Hemask : forall i, In i its -> rl_mask (i_el i) = imask i.
+  Proof. intros i Hi. apply (items_emask S). auto. Qed.
+  Lemma Hbot : In bot its /\ i_s bot = 0 /\ i_e bot = two128.
+  Proof. destruct (bottom_of_spec S) as [B1 [B2 [B3 _]]]. auto. Qed.
+  Lemma Hbot0 : imask bot = 0.
+  Proof. destruct (bottom_of_spec S) as [_ [_ [_ B4]]]. exact B4. Qed.
+  Lemma Hnull : forall j, In j its -> rl_null (i_l j) = true -> imask j = 0.
+  Proof. intros j Hj. apply (items_null_mask S). auto. Qed.
+
+  (* Rearrange does not panic; its result is the squash of the swept list *)
+  Lemma rearrange_result : S <> [] ->
+    rearrange sort S = Ok (squash_spec (map (asg its bot) L)).
+  Proof.
+    intro Hne. unfold rearrange. fold r.
+    assert (Hp : rr_points r <> []).
+    { unfold r. rewrite add_locations_spec. cbn [rr_points]. destruct S as [|s0 S']; [contradiction|].
+      cbn [flat_map]. pose proof (sub_points_nonempty s0). destruct (sub_points s0); [contradiction|discriminate]. }
+    rewrite (rearrange_rr_nonempty sort r Hp). fold L.
+    rewrite (sweep_correct its (items_nodup S wfS) Hrange Hlam Hstart Hend Hinj Hmono Hemask bot Hbot L L_perm_items L_sorted_items).
+    cbn [rbind]. rewrite squash_eq. reflexivity.
+  Qed.
+
+  Variable a plen : N.
+  Hypothesis Ha : a < two128.
+  Hypothesis Hp : plen <= 128.
+  Hypothesis Hm : masked a plen.
+
+  Lemma Hstr : forall j, In j its -> i_s j < a -> a < i_e j -> imask j <= plen.
+  Proof. intros j Hj. apply (items_straddle S wfS a plen Ha Hp Hm). auto. Qed.
+
+  Definition point_value (p : point) : option (locid * N) :=
+    if rl_null (p_loc p) then None else Some (rl_id (p_loc p), rl_mask (p_loc p)).
+
+  (* a range point that is greatest among the range points not above (a, plen) carries the longest-prefix match *)
+  Lemma max_point_is_lpm : S <> [] -> forall pts p, rearrange sort S = Ok pts ->
+    In p pts -> keyle_q p a plen -> (forall q, In q pts -> keyle_q q a plen -> keyle q p) ->
+    point_value p = lpm S (fam a) a plen.
+  Proof.
+    intros Hne pts p E Hin Hle Hmax. rewrite (rearrange_result Hne) in E. inversion E. subst pts.
+    destruct (sweep_locate_gen its (items_nodup S wfS) Hrange Hlam Hstart Hend Hinj Hmono Hemask bot Hbot L
+                L_perm_items L_sorted_items a plen Ha Hnull Hstr Hbot0 p Hin Hle Hmax) as [t [Ht [Pl [Et Mx]]]].
+    unfold point_value. rewrite Pl. exact (emax_is_lpm S wfS a plen Ha Hp Hm t Ht Et Mx).
+  Qed.
+
+  Lemma some_point_below : S <> [] -> forall pts, rearrange sort S = Ok pts ->
+    pt_seek_aux None pts a plen <> None.
+  Proof.
+    intros Hne pts E. rewrite (rearrange_result Hne) in E. inversion E.
+    exact (sweep_locate_some its (items_nodup S wfS) Hrange Hlam Hstart Hend Hinj Hmono Hemask bot Hbot L
+             L_perm_items L_sorted_items a plen Ha Hnull Hstr Hbot0).
+  Qed.
+
+  Lemma points_ip_lt : S <> [] -> forall pts p, rearrange sort S = Ok pts -> In p pts -> p_ip p < two128.
+  Proof.
+    intros Hne pts p E Hin. rewrite (rearrange_result Hne) in E. inversion E. subst pts.
+    exact (kept_ip_lt its Hrange Hlam Hstart Hend Hinj Hmono Hemask bot Hbot L L_perm_items a plen Ha Hnull Hstr Hbot0 p Hin).
+  Qed.
+End RearrangeWf.
+
 Theorem rearrange_is_lpm : forall sort S a plen,
   sort_spec sort -> wf_subnets S -> a < two128 -> plen <= 128 -> masked a plen ->
   exists pts, rearrange sort S = Ok pts /\ pt_locate pts a plen = lpm S (fam a) a plen.
@@ -876,49 +977,16 @@ Proof.
   intros sort S a plen Hsort wfS Ha Hp Hm.
   destruct S as [|s0 S'].
   { exists []. split; reflexivity. }
-  set (S := s0 :: S') in *.
-  pose proof (wfS_all S wfS) as Wall.
-  unfold rearrange, rearrange_rr.
-  set (r := add_locations S).
-  assert (Hne : rr_points r <> []).
-  { unfold r. rewrite add_locations_spec. cbn [rr_points S flat_map].
-    pose proof (sub_points_nonempty s0). destruct (sub_points s0); [contradiction|discriminate]. }
-  destruct (rr_points r) as [|p0 ps] eqn:Epts; [contradiction|]. rewrite <- Epts.
-  set (its := items_of S). set (bot := bottom_of S).
-  set (L := sort (rr_points r ++ implicit_points r)).
-  destruct (Hsort (rr_points r ++ implicit_points r)) as [Lp Ls]. fold L in Lp, Ls.
-  assert (Lperm : Permutation L (flat_map ipoints its)).
-  { apply Permutation_sym. unfold r in Lp. rewrite (points_are_item_points S Wall) in Lp. exact Lp. }
-  pose proof (items_nodup S wfS) as Hnd.
-  assert (Hrange : forall i, In i its -> i_s i < i_e i /\ i_e i <= two128)
-    by (intros i Hi; apply geo_range; apply (items_inum S wfS); auto).
-  assert (Hlam : forall i j, In i its -> In j its ->
-            i_e i <= i_s j \/ i_e j <= i_s i \/ (i_s i <= i_s j /\ i_e j <= i_e i) \/ (i_s j <= i_s i /\ i_e i <= i_e j))
-    by (intros i j Hi Hj; apply geo_lam; apply (items_inum S wfS); auto).
-  assert (Hstart : forall i j, In i its -> In j its -> i_s i = i_s j -> i_e j < i_e i -> imask i < imask j)
-    by (intros i j Hi Hj; apply geo_start; apply (items_inum S wfS); auto).
-  assert (Hend : forall i j, In i its -> In j its -> i_e i = i_e j -> i_e i < two128 -> i_s i < i_s j -> imask i < imask j)
-    by (intros i j Hi Hj; apply geo_end; apply (items_inum S wfS); auto).
-  assert (Hinj : forall i j, In i its -> In j its -> i_s i = i_s j -> i_e i = i_e j -> i = j)
-    by (intros i j Hi Hj; apply (items_inj S wfS); auto).
-  assert (Hmono : forall i j, In i its -> In j its -> i_s i <= i_s j -> i_e j <= i_e i -> imask i <= imask j).
-  { intros i j Hi Hj. apply geo_mono; try (apply (items_inum S wfS); auto).
-    intros [A1 [A2 _]] [B1 [B2 _]]. assert (i = j) by (apply Hinj; auto; congruence). subst. reflexivity. }
-  assert (Hemask : forall i, In i its -> rl_mask (i_el i) = imask i) by (intros i Hi; apply (items_emask S); auto).
-  destruct (bottom_of_spec S) as [Hb1 [Hb2 [Hb3 Hb4]]]. fold its bot in Hb1, Hb2, Hb3, Hb4.
-  assert (Hbot : In bot its /\ i_s bot = 0 /\ i_e bot = two128) by auto.
-  pose proof (sweep_correct its Hnd Hrange Hlam Hstart Hend Hinj Hmono Hemask bot Hbot L Lperm Ls) as Sw.
-  rewrite Sw. cbn [rbind]. eexists. split; [reflexivity|].
-  rewrite squash_eq. unfold pt_locate.
-  assert (Hnull : forall j, In j its -> rl_null (i_l j) = true -> imask j = 0)
-    by (intros j Hj; apply (items_null_mask S); auto).
-  assert (Hstr : forall j, In j its -> i_s j < a -> a < i_e j -> imask j <= plen)
-    by (intros j Hj; apply (items_straddle S wfS a plen Ha Hp Hm); auto).
-  pose proof (sweep_locate_some its Hnd Hrange Hlam Hstart Hend Hinj Hmono Hemask bot Hbot L Lperm Ls a plen Ha Hnull Hstr Hb4) as Some_.
-  destruct (pt_seek_aux None (squash_spec (map (asg its bot) L)) a plen) as [p|] eqn:Ep; [|contradiction].
-  destruct (sweep_locate its Hnd Hrange Hlam Hstart Hend Hinj Hmono Hemask bot Hbot L Lperm Ls a plen Ha Hnull Hstr Hb4 p Ep)
-    as [t [Ht [Pl [Et Mx]]]].
-  rewrite Pl. exact (emax_is_lpm S wfS a plen Ha Hp Hm t Ht Et Mx).
+  assert (Hne : s0 :: S' <> []) by discriminate.
+  eexists. split; [apply (rearrange_result sort Hsort _ wfS Hne)|].
+  set (pts := squash_spec _).
+  assert (E : rearrange sort (s0 :: S') = Ok pts) by (apply (rearrange_result sort Hsort _ wfS Hne)).
+  unfold pt_locate.
+  pose proof (some_point_below sort Hsort _ wfS a plen Ha Hp Hm Hne pts E) as Sm.
+  pose proof (pt_seek_spec pts a plen None I) as Sp.
+  destruct (pt_seek_aux None pts a plen) as [p|]; [|contradiction].
+  destruct Sp as [[Hin|C] [Hle [Hmax _]]]; [|discriminate C].
+  exact (max_point_is_lpm sort Hsort _ wfS a plen Ha Hp Hm Hne pts p E Hin Hle Hmax).
 Qed.
 
 (* ---------------------------------------------------------------- order independence *)
